@@ -19,8 +19,8 @@ enum { A_CREATE, A_ENCODE, A_DECODE, A_DECODE_EXPLICIT, A_LOAD, A_CRYPT, A_KEYGE
 static const char* const API_NAME[] = { "polyseed_create", "polyseed_encode", "polyseed_decode", "polyseed_decode_explicit", "polyseed_load",
                                         "polyseed_crypt", "polyseed_keygen", "polyseed_store", "polyseed_free", "getters" };
 /* paths */
-enum { P_OK, P_NUM_WORDS, P_LANG, P_MULT_LANG, P_CHECKSUM, P_MEMORY, P_UNSUPPORTED, P_FORMAT, P_NPATH };
-static const char* const PATH_NAME[] = { "OK", "NUM_WORDS", "LANG", "MULT_LANG", "CHECKSUM", "MEMORY", "UNSUPPORTED", "FORMAT" };
+enum { P_OK, P_NUM_WORDS, P_LANG, P_MULT_LANG, P_CHECKSUM, P_MEMORY, P_UNSUPPORTED, P_FORMAT, P_LONG, P_NPATH };
+static const char* const PATH_NAME[] = { "OK", "NUM_WORDS", "LANG", "MULT_LANG", "CHECKSUM", "MEMORY", "UNSUPPORTED", "FORMAT", "OVERLONG" };
 
 typedef struct job {
     int api, path, lang;
@@ -299,6 +299,11 @@ static bool build(const shape* sh, pv_rng* r, job* j, nset* S) {
         if (sh->path == P_NUM_WORDS) ntok = pv_randn(r, 2) ? 15 : 17;
         if (sh->path == P_LANG) bad = 8 + (int)pv_randn(r, 8);
         join_tokens(ph, L, d, sep, ntok, bad);
+        if (sh->path == P_LONG) {          /* a valid phrase followed by blanks / short tokens up to and beyond the size of the internal buffer (whatever exit that takes) */
+            size_t n = strlen(ph), want = (size_t)POLYSEED_STR_SIZE - 8 + pv_randn(r, 80); uint32_t kind = pv_randn(r, 3);
+            while (n < want && n < sizeof ph - 4) { if (kind == 0) ph[n++] = ' '; else if (kind == 1) { ph[n++] = ' '; ph[n++] = 'x'; } else { ph[n++] = ' '; ph[n++] = (char)0xc3; ph[n++] = (char)0xa9; } }
+            ph[n] = 0;
+        }
         char* in = (L->compose && pv_randn(r, 2)) ? pv_nfc_alloc(ph) : pv_exact_str(ph);
         j->str = pv_exact_str(in); free(in);
         char nfk[4096]; join_tokens(nfk, L, d, " ", ntok, bad);
@@ -318,7 +323,7 @@ static void dispose(job* j) {
 }
 static int expected_status(const shape* sh) {
     static const int st[P_NPATH] = { POLYSEED_OK, POLYSEED_ERR_NUM_WORDS, POLYSEED_ERR_LANG, POLYSEED_ERR_MULT_LANG, POLYSEED_ERR_CHECKSUM,
-                                     POLYSEED_ERR_MEMORY, POLYSEED_ERR_UNSUPPORTED, POLYSEED_ERR_FORMAT };
+                                     POLYSEED_ERR_MEMORY, POLYSEED_ERR_UNSUPPORTED, POLYSEED_ERR_FORMAT, POLYSEED_ERR_NUM_WORDS };
     return st[sh->path];
 }
 static bool has_status(int api) { return api == A_CREATE || api == A_DECODE || api == A_DECODE_EXPLICIT || api == A_LOAD; }
@@ -326,7 +331,7 @@ static bool has_status(int api) { return api == A_CREATE || api == A_DECODE || a
 /* the list of shapes: every API x every exit path it has x languages (where a language is involved) */
 static shape g_shapes[512]; static int g_nshapes;
 static void make_shapes(void) {
-    static const int dec_paths[] = { P_OK, P_NUM_WORDS, P_LANG, P_MULT_LANG, P_CHECKSUM, P_MEMORY, P_UNSUPPORTED };
+    static const int dec_paths[] = { P_OK, P_NUM_WORDS, P_LANG, P_MULT_LANG, P_CHECKSUM, P_MEMORY, P_UNSUPPORTED, P_LONG };
     static const int load_paths[] = { P_OK, P_FORMAT, P_CHECKSUM, P_UNSUPPORTED, P_MEMORY };
     static const int create_paths[] = { P_OK, P_UNSUPPORTED, P_MEMORY };
     for (int l = 0; l < pv_nlangs; ++l) {
